@@ -44,6 +44,7 @@ OBLIGATIONS = [
     "VgiVerif.C34.C34_message_formatted",
     "VgiVerif.C34.C34_keys",
     "VgiVerif.C34.C34_one_line",
+    "VgiVerif.C34.C34_refused_silent",
 ]
 EXTRACTORS = ["gen_c34"]
 TRUSTED = [
@@ -63,8 +64,10 @@ TRUSTED = [
 PARTIAL = [
     "built-in dispatches (__describe__, __transport_options__, upload-url) emit through the same `_emit_access_log` but are not in the "
     "generated programs",
-    "requests refused before dispatch (unknown method, bad parameters, version gate, bad token) produce no record by design and are "
-    "outside the property's 'dispatched call'",
+    "requests refused before dispatch produce no record and are outside the property's 'dispatched call'; refused HTTP continuations "
+    "(bad / expired / foreign cursor, wrong method, missing call token) are exercised and modelled (`Http.refused`, C34_refused_silent): "
+    "nothing must be written, and anything that is written must be one schema-valid record; unknown methods / bad parameters / the "
+    "version gate at /init are not exercised",
     "sticky sessions, tracing ids, sampling and the async queue handler are outside the model (keys never present on these paths)",
     "the two input-refusal error paths of _run_http_exchange_turn (unresolvable external pointer -> 500, input batch refused by the "
     "declared schema -> 400) have their http_status extracted and pinned, but generated exchanges send inline conforming batches, so "
@@ -105,7 +108,62 @@ MANIFEST = {
 LOGGER = "vgi_rpc.access"
 CMP_KEYS = ["message", "method", "method_type", "status", "error_type", "error_message", "cancelled", "http_status", "truncated",
             "level", "logger", "server_id", "protocol", "protocol_hash", "principal", "auth_domain", "authenticated", "remote_addr"]
-EXCS = ["ValueError", "RuntimeError", "KeyError", "CustomError", "KindedError", "ZeroDivisionError", "PermissionError", "TypeError"]
+EXCS = ["ValueError", "RuntimeError", "KeyError", "CustomError", "KindedError", "ZeroDivisionError", "PermissionError", "TypeError",
+        # shapes whose text does not sit in args[0] (see SHAPED): a descriptor names a *factory* text -> exception
+        "StrOnlyError", "KwOnlyError", "DecoratedError", "MultiArgError", "NonStrArgError", "OsStyleError", "BareError", "StrOnlyError",
+        "KwOnlyError"]
+
+
+class StrOnlyError(Exception):
+    """The text comes from __str__; nothing is handed to Exception.__init__ (args == ())."""
+
+    def __init__(self, text: str) -> None:
+        super().__init__()
+        self.text = text
+
+    def __str__(self) -> str:
+        return self.text
+
+
+class KwOnlyError(Exception):
+    """Keyword-only constructor (dataclass-style): args == (), the message is composed in __str__."""
+
+    def __init__(self, *, detail: str, limit: int = 5, used: int = 9) -> None:
+        super().__init__()
+        self.detail, self.limit, self.used = detail, limit, used
+
+    def __str__(self) -> str:
+        return f"quota exceeded: used {self.used} of {self.limit}\n{self.detail}"
+
+
+class DecoratedError(Exception):
+    """args[0] is the raw text but str() decorates it (str(exc) != args[0])."""
+
+    def __str__(self) -> str:
+        return f"<<{self.args[0]}>> (decorated, {len(self.args[0])} chars)"
+
+
+class MultiArgError(Exception):
+    """several positional args: str() is the tuple's repr"""
+
+
+class NonStrArgError(Exception):
+    """a non-str positional arg: str() is its str()"""
+
+
+class BareError(Exception):
+    """raised without any argument and without __str__: str() == "" (the class-name fallback applies)"""
+
+
+SHAPED = {
+    "StrOnlyError": lambda t: StrOnlyError(t),
+    "KwOnlyError": lambda t: KwOnlyError(detail=t),
+    "DecoratedError": lambda t: DecoratedError(t),
+    "MultiArgError": lambda t: MultiArgError(t, 42, ("x", None)),
+    "NonStrArgError": lambda t: NonStrArgError({"detail": t, "n": len(t)}),
+    "OsStyleError": lambda t: OSError(2, t),
+    "BareError": lambda t: BareError(),
+}
 CLIENT_REFUSALS = ("Stream has been closed or cancelled", "Stream has finished")
 
 
@@ -157,6 +215,10 @@ class Rig:
                 svcgen.EVENTS.append(("postdone", url))
 
         self._cls.post = post  # type: ignore[method-assign]
+        # exception shapes: svcgen builds `exc_classes()[cls](arg)`; the extra entries are factories text -> exception
+        self._orig_exc_classes = svcgen.exc_classes
+        orig_classes = self._orig_exc_classes
+        svcgen.exc_classes = lambda: {**orig_classes(), **SHAPED}  # type: ignore[assignment]
         self._testing = _testing
         self._orig_make = _testing.make_sync_client
         orig_make = self._orig_make
@@ -178,6 +240,7 @@ class Rig:
     def close(self) -> None:
         self._cls.post = self._orig_post  # type: ignore[method-assign]
         self._testing.make_sync_client = self._orig_make  # type: ignore[assignment]
+        svcgen.exc_classes = self._orig_exc_classes  # type: ignore[assignment]
         self._cold.clear()
         self.tmp.cleanup()
         self.lg.removeHandler(self.cap)
@@ -639,6 +702,215 @@ def run_interleaved(desc: dict[str, Any], prog: list[dict[str, Any]], cfg: Confi
     return result
 
 
+REFUSALS = ["flip", "truncate", "empty", "garbage", "foreign-key", "wrong-method", "no-call-token", "expired"]
+
+
+def run_refusals(desc: dict[str, Any], c: dict[str, Any], other: str | None, cfg: Config, variant: str, at: str,
+                 deadline: float = 30.0) -> dict[str, Any]:
+    """One HTTP stream call with a continuation / exchange turn / cancel the worker must REFUSE in the middle.
+
+    open -> one ordinary step -> the same kind of request again with an unusable token (`variant`) -> the ordinary rest of the
+    call with the genuine token -> close / cancel.  `at` = "step" (continuation or exchange turn) or "cancel" (the refused
+    request is a cancel; the stream is then abandoned, as `cancel()` forgets its token).  Returns the server events and, per
+    client op, what the caller saw."""
+    import threading
+    import time as _time
+
+    from vgi_rpc.rpc import RpcError
+
+    svcgen.EVENTS.clear()
+    P, impl = svcgen.build(desc)
+    cur: list[list[Any]] = []
+    ops: list[tuple[str, list[list[Any]]]] = []
+    result: dict[str, Any] = {"hung": False}
+    name = c["m"]["name"]
+    wk: dict[str, Any] = {}
+    if variant == "no-call-token":
+        wk["call_state_cache_entries"] = 0          # the call can only come from the echoed call token
+    if variant == "expired":
+        wk["token_ttl"] = 1
+
+    def body() -> None:
+        conn = svcgen.Conn(P, impl, cfg, lambda m: cur.append(svcgen._ev_log(m)), None, wk or None)
+        foreign = None
+        if variant == "foreign-key":
+            from vgi_rpc.http import http_connect
+            from vgi_rpc.http._testing import make_sync_client
+
+            fc = make_sync_client(conn.server, token_key=b"z" * 32, max_response_bytes=cfg.cap)
+            svcgen.EVENTS.append(("op", "foreign"))   # a stream of its own on another worker: not part of the call under test
+            try:
+                with http_connect(P, client=fc) as fp:
+                    foreign = getattr(fp, name)(a=99)._state_bytes   # a cursor sealed under another worker key
+            except Exception:  # noqa: BLE001  (the method fails at init there as here: any other unusable token will do)
+                foreign = None
+        it: list[Any] = [None]
+
+        def op(label: str, fn: Any) -> None:
+            cur.clear()
+            svcgen.EVENTS.append(("op", label))
+            try:
+                fn()
+            except RpcError as e:
+                cur.append(svcgen._ev_err(e))
+            except StopIteration:
+                cur.append(["end"])
+            except Exception as e:  # noqa: BLE001
+                cur.append(["raised", type(e).__name__, str(e)[:200]])
+            ops.append((label, [list(x) for x in cur]))
+
+        try:
+            sess: list[Any] = [None]
+            op("open", lambda: sess.__setitem__(0, getattr(conn.proxy, name)(a=0)))
+            s_ = sess[0]
+            if s_ is None or s_._state_bytes is None:
+                return  # init failed / the stream ended inside /init: there is no token to spoil
+
+            def step(k: int) -> None:
+                if c["kind"] == "exchange":
+                    cur.append(svcgen._ev_data(s_.exchange(svcgen.make_input(k, "ok"))))
+                else:
+                    if it[0] is None:
+                        it[0] = iter(s_)
+                    cur.append(svcgen._ev_data(next(it[0])))
+
+            def spoiled(fn: Any) -> None:
+                good, good_call, good_method = s_._state_bytes, s_._call_state_bytes, s_._method
+                tok = bytes(good)
+                if variant == "flip":
+                    s_._state_bytes = tok[: len(tok) // 2] + bytes([tok[len(tok) // 2] ^ 0x41]) + tok[len(tok) // 2 + 1:]
+                elif variant == "truncate":
+                    s_._state_bytes = tok[: len(tok) // 2]
+                elif variant == "empty":
+                    s_._state_bytes = b""
+                elif variant == "garbage":
+                    s_._state_bytes = b"QUJD" * 12
+                elif variant == "foreign-key":
+                    s_._state_bytes = foreign or b"x"
+                elif variant == "wrong-method":
+                    s_._method = other or name
+                elif variant == "no-call-token":
+                    s_._call_state_bytes = None
+                elif variant == "expired":
+                    _time.sleep(2.1)
+                try:
+                    fn()
+                finally:
+                    if s_._state_bytes is not None:
+                        s_._state_bytes = good
+                    s_._call_state_bytes, s_._method = good_call, good_method
+                    it[0] = None   # a generator that raised is dead: later pulls start a fresh one on the genuine token
+
+            # a producer hands out the batch(es) of /init first; its first continuation carries `_state_bytes`
+            if c["kind"] == "producer":
+                for _ in range(len(s_._pending_batches)):   # exactly the init batches: the next pull sends `_state_bytes`
+                    op("pending", lambda: step(0))
+            else:
+                op("step", lambda: step(0))
+            if at == "step":
+                op("refused", lambda: spoiled(lambda: step(1)))
+                if variant != "expired":
+                    for k in range(2, 4):
+                        op("step", lambda k=k: step(k))
+                    op(c["fin"], lambda: (s_.cancel() if c["fin"] == "cancel" else s_.close()))
+            else:
+                op("refused", lambda: spoiled(lambda: s_.cancel()))
+        finally:
+            conn.close()
+
+    th = threading.Thread(target=body, daemon=True)
+    th.start()
+    th.join(deadline)
+    result["hung"] = th.is_alive()
+    result["ops"] = ops
+    result["events"] = list(svcgen.EVENTS)
+    return result
+
+
+def check_refusal(ctx: Any, rig: Rig, c: dict[str, Any], other: dict[str, Any] | None, cfg: Config, variant: str, at: str) -> None:
+    """O: a refused request dispatches nothing — it needs no record; whatever IS written must be one schema-valid record.
+    Every dispatched request of the call still has exactly one record and they share one stream_id.  K: Lean `Http.refused`."""
+    prog = [c] + ([other] if other is not None else [])
+    desc = service_of(prog)
+    case = {"kind": "refusal", "call": c, "other": other, "cfg": [cfg.kind, cfg.cap, cfg.codec], "variant": variant, "at": at}
+    where = f"{cfg.label()} {c['kind']} {c['m']['name']}: {at} with {variant} token"
+    rig.level(False)
+    rig.cap.records.clear()
+    sink = FileSink(rig.tmp.name, [DEFAULT_CAP])
+    r = run_refusals(desc, c, other["m"]["name"] if other else None, cfg, variant, at)
+    recs = list(rig.cap.records)
+    ctx.case(case, nontrivial=True, tags=(f"refusal:{variant}:{at}",))
+    if r["hung"]:
+        sink.read_back()
+        ctx.fail(case, "C34:hung:http", f"{where}: did not complete")
+        return
+    check_file(ctx, case, where, sink, recs)
+    # per POST: what was dispatched, how many records
+    posts: list[dict[str, Any]] = []
+    cur: dict[str, Any] | None = None
+    label = ""
+    for ev in r["events"]:
+        if ev[0] == "op":
+            label = ev[1]
+        elif ev[0] == "post":
+            cur = {"url": ev[1], "op": label, "dispatched": False, "records": []}
+            posts.append(cur)
+        elif ev[0] == "postdone":
+            cur = None
+        elif cur is not None and ev[0] in ("invoke", "process", "on_cancel"):
+            cur["dispatched"] = True
+        elif ev[0] == "record":
+            if cur is None:
+                ctx.fail(case, "C34:once:http:stray-record", f"{where}: a record outside any request")
+            else:
+                cur["records"].append(ev[1])
+    refused = [p for p in posts if p["op"] == "refused" and p["url"].endswith("/exchange")]
+    seen = dict(r["ops"]).get("refused")
+    if not refused or seen is None:
+        ctx.tag("refusal:not-reached")   # the stream ended inside /init (no token to spoil)
+        return
+    name = c["m"]["name"]
+    sids = set()
+    for p in posts:
+        lines = [fmt_line(recs[k]) for k in p["records"]]
+        if p["op"] == "refused" and not p["dispatched"]:
+            ctx.tag(f"refused-request:{len(lines)}-records")
+            if len(lines) > 1:
+                ctx.fail(case, f"C34:refused:{len(lines)}-records:{variant}", f"{where}: the refused request wrote {len(lines)} records")
+            for x in lines:
+                for path, msg in violations(x)[:1]:
+                    word = msg.split("'")[1] if "'" in msg and "required" in msg else path
+                    ctx.fail(case, f"C34:refused:schema:{word}:{at}",
+                             f"{where}: the request was refused before anything was dispatched (client saw {short(seen, 160)}), yet a record was "
+                             f"written and it fails access_log.schema.json at {path}: {msg[:120]} — {short(slim(x))}")
+            if ctx.driver is not None and lines:
+                pass
+        else:
+            if p["op"] == "foreign":
+                continue
+            if p["op"] == "refused":
+                ctx.tag(f"refusal:was-dispatched:{variant}:{at}")   # the worker accepted the request after all
+            if len(lines) != 1:
+                ctx.fail(case, f"C34:once:http:post:{len(lines)}-records", f"{where}: POST {p['url']} ({p['op']}) wrote {len(lines)} records")
+            for x in lines:
+                if x["method"] == name:
+                    sids.add(x.get("stream_id"))
+                for path, msg in violations(x)[:1]:
+                    ctx.fail(case, f"C34:schema:{path}:refusal-run", f"{where}: record of {p['op']} fails the schema at {path}: {msg[:120]}")
+    if len(sids) > 1 or None in sids:
+        ctx.fail(case, f"C34:stream_id:http:{'missing' if None in sids else 'differs'}:refusal-run", f"{where}: dispatched requests of the stream carry stream ids {sorted(map(str, sids))}")
+    # K: the model's verdict on a refused continuation
+    if ctx.driver is not None:
+        nrec = sum(len(p["records"]) for p in refused if not p["dispatched"])
+        env = {"server_id": s2j("s"), "protocol": s2j("P"), "protocol_hash": s2j("0" * 64), "server_version": s2j(""), "debug": False,
+               "principal": s2j(""), "auth_domain": s2j(""), "authenticated": False, "claims": False, "request_id": s2j("r"),
+               "http_remote": s2j("127.0.0.1")}
+        out = ctx.driver.call("C34.refused", {"env": env, "name": s2j(name), "cause": dexc_raw("RuntimeError", "refused"), "status": 400})
+        want = len(out["records"]) * len([p for p in refused if not p["dispatched"]])
+        if want != nrec:
+            ctx.mismatch(case, want, nrec, "http: number of records written for refused continuations")
+
+
 def brk_of(c: dict[str, Any], turns: list[dict[str, Any]]) -> list[int]:
     """Break positions of a producer call read off the process() indices of each POST (see module docstring, K1)."""
     if c["kind"] != "producer":
@@ -903,7 +1175,8 @@ def oracle_call(ctx: Any, case: dict[str, Any], c: dict[str, Any], rl: list[dict
         msg = x.get("error_message")
         if text != "" and msg != text:
             n = len(text)
-            key = (f"C34:message:{fam}:truncated:{len(msg)}-of-{'500+' if n > 500 else n}" if isinstance(msg, str) and text.startswith(msg)
+            key = (f"C34:message:{fam}:class-name-instead-of-text:{x['error_type']}" if msg == x["error_type"] else
+                   f"C34:message:{fam}:truncated:{len(msg)}-of-{'500+' if n > 500 else n}" if isinstance(msg, str) and text.startswith(msg)
                    else f"C34:message:{fam}:differs")
             ctx.fail(case, key, f"{name} on {cfg.label()}: str(exc) has {n} chars, error_message is "
                      f"{'absent' if msg is None else str(len(msg)) + ' chars'}: {short(msg, 80)}")
@@ -1235,6 +1508,14 @@ def _corpus() -> list[list[dict[str, Any]]]:
         [{"kind": "producer", "m": p_err, "iters": [None], "fin": "close"}, {"kind": "producer", "m": p_err, "iters": [1], "fin": "cancel"},
          {"kind": "exchange", "m": x1, "sends": 3, "fin": "cancel"}, {"kind": "producer", "m": p_fin, "iters": [None], "fin": "cancel"},
          {"kind": "producer", "m": p_fin, "iters": [0], "fin": "close"}, {"kind": "exchange", "m": x1, "sends": 0, "fin": "close"}],
+        # exceptions whose text is not args[0]: __str__ with empty args, keyword-only constructor, decorated / multi / non-str args
+        [U("u_str", E("StrOnlyError", "only in __str__\nsecond line")), U("u_kw", E("KwOnlyError", "retry after the window resets")),
+         U("u_bare", E("BareError", "ignored")), U("u_os", E("OsStyleError", "no such thing")),
+         {"kind": "exchange", "m": X("x_kw", [], init=E("KwOnlyError", "init refused")), "sends": 1, "fin": "close"},
+         {"kind": "exchange", "m": X("x_dec", [S(em(1)), S(E("DecoratedError", "raw text"))]), "sends": 3, "fin": "close"},
+         {"kind": "producer", "m": P("p_multi", [S(em(1)), S(E("MultiArgError", "first of three"))], header=True), "iters": [None], "fin": "close"},
+         {"kind": "producer", "m": P("p_str", [S(E("StrOnlyError", "x" * 700))]), "iters": [None], "fin": "cancel"},
+         {"kind": "producer", "m": P("p_nonstr", [S(em(1)), S(em(2)), S(E("NonStrArgError", "in a dict"))]), "iters": [1, None], "fin": "close"}],
         # texts with characters a line-splitting reader cuts at (the file read back must still hold every record, whole)
         [U("u_ls", E("ValueError", "line one\u2028line two")), U("u_nel", E("RuntimeError", "first\x85second")),
          {"kind": "producer", "m": P("p_ps", [S(em(1)), S(E("CustomError", "para one\u2029para two \U0001F600"))]), "iters": [None], "fin": "close"},
@@ -1297,12 +1578,32 @@ def run(ctx: Any) -> None:
                 check_run(ctx, rig, prog, nocap, debug=False, small_caps=[400], cache=cache, interleave=True)
             check_run(ctx, rig, prog, capped, debug=True, small_caps=[400], cache=1, interleave=True)
             check_run(ctx, rig, prog, nocap, debug=False, small_caps=[400], cache=1, cold=True, interleave=True)
+        # continuations / exchange turns / cancels the worker refuses (nothing is dispatched)
+        em4 = [{"logs": [], "act": {"emit": {"id": 30 + k, "rows": 1, "meta": {}}}, "post": []} for k in range(5)]
+        mk = lambda nm, kind, fin: {"kind": kind, "m": {"name": nm, "kind": kind, "header": False, "hdr": 1, "init_logs": [], "init": "ok",  # noqa: E731
+                                                        "steps": em4}, "fin": fin, **({"iters": [None]} if kind == "producer" else {"sends": 4})}
+        rp, rp2, rx, rx2 = mk("rp", "producer", "close"), mk("rp2", "producer", "close"), mk("rx", "exchange", "cancel"), mk("rx2", "exchange", "close")
+        for variant in REFUSALS:
+            if variant == "expired" and ctx.tier != "thorough" and ctx.seed % 2:
+                continue  # 2 s of waiting: every other seed in the quick tier
+            if variant != "expired" or ctx.tier == "thorough":
+                check_refusal(ctx, rig, rp, rp2, nocap, variant, "step")
+            check_refusal(ctx, rig, rx, rx2, rng.choice([nocap, capped]), variant, "step")
+            if variant != "expired":
+                check_refusal(ctx, rig, rng.choice([rp, rx]), rng.choice([rp2, rx2]), nocap, variant, "cancel")
         thorough = ctx.tier == "thorough"
         for n in range(ctx.budget(22, 500)):
             prog = gen_program(rng, big=thorough or n % 5 == 0)
             for cfg in configs(rng, "all" if thorough else "some"):
                 check_run(ctx, rig, prog, cfg, debug=rng.random() < 0.35, small_caps=[rng.choice([250, 400, 650, 1000, 2500])],
                           cache=rng.choice([None, None, 0, 1]), cold=rng.random() < 0.2)
+            # one of the program's streams with a refused request in its middle
+            cands = [c for c in prog if c["kind"] != "unary" and c["m"]["init"] == "ok"]
+            if cands and rng.random() < 0.7:
+                c0 = rng.choice(cands)
+                others = [c for c in prog if c["kind"] == c0["kind"] and c["m"]["name"] != c0["m"]["name"]]
+                check_refusal(ctx, rig, c0, rng.choice(others) if others else None, rng.choice([nocap, capped, Config("http", 2000, "zstd")]),
+                              rng.choice(REFUSALS[:-1]), rng.choice(["step", "step", "cancel"]))
             # the program's stream calls (distinct methods) alive at once on one worker with a tiny / disabled / default cache
             streams: list[dict[str, Any]] = []
             for c in prog:
@@ -1355,6 +1656,10 @@ def replay(ctx: Any, case: dict[str, Any]) -> None:
         return
     rig = Rig()
     try:
+        if case.get("kind") == "refusal":
+            kind, cap, codec = case["cfg"]
+            check_refusal(ctx, rig, case["call"], case.get("other"), Config(kind, cap, codec), case["variant"], case["at"])
+            return
         if case.get("kind") == "text-record":
             full = dict(case["base"])
             base = logging.LogRecord(LOGGER, logging.INFO, __file__, 0, full.pop("message", "m"), None, None)
